@@ -990,6 +990,100 @@ def c17(tier):
     return v.finish()
 
 
+# ------------------------------------------------------------------------------------------ C12 / C20 (client role)
+
+CLIENT_CFG = """SPECIFICATION %(spec)s
+CONSTANTS
+ MixedLevels = {}
+ MaxSteps = %(depth)d
+ MaxReq = %(maxreq)d
+ DevRegisterAfterWrite = %(dev)s
+ DedupDispatch = TRUE
+INVARIANTS TypeOK %(emit)s
+PROPERTIES CompleteOnce NotBeforeAck DispatchSound
+%(view)s
+"""
+
+
+def client_behaviours(v, spec, depth, maxreq, mode, dev="FALSE"):
+    cfg = CLIENT_CFG % dict(spec=spec, depth=depth, maxreq=maxreq, dev=dev, emit="Emit" if mode == "cover" else "EmitFull",
+                            view="VIEW CoverView" if mode == "cover" else "")
+    r = core.cached_tlc("client-%s-%s-%d-%d" % (spec, mode, depth, maxreq), "MCClient", cfg, workers=1, timeout=1500)
+    v.tlc("%s(%s, depth %d, %d requests)" % (spec, mode, depth, maxreq), r)
+    behs = core.behaviours(r.lines)
+    if mode == "cover":
+        behs = core.leaves(behs, key=lambda x: [s["a"] for s in x])
+    return behs
+
+
+def client_replay(v, pid, behs, label, own, extra=None):
+    res = core.merge(core.run_sharded(["clientreplay"] + (extra or []), behs, timeout=2400))
+    if res.get("counts", {}).get("infra"):
+        raise Infra("client harness: %s" % res.get("notes")[:2])
+    mine = [m for m in res.get("mismatches", []) if m.get("tag") in own]
+    foreign = [m for m in res.get("mismatches", []) if m.get("tag") not in own]
+    v.cov["parts"][label] = {"behaviours": res.get("evaluations", 0), "steps": res.get("steps", 0), "mismatching": res.get("nmismatch", 0),
+                             "own": len(mine), "diverged_foreign": len(foreign)}
+    v.cov["evaluations"] += res.get("evaluations", 0)
+    v.cov["traces_validated_against_impl"] += res.get("evaluations", 0)
+    v.cov["distinct_nontrivial"] += res.get("evaluations", 0)
+    v.mismatches(mine, {k: n for k, n in res.get("counts", {}).items() if k.startswith("known:") and k != "known:"})
+    if foreign:
+        v.notes.append("%s: %d behaviours diverged on observables of another property, e.g. %s" % (label, len(foreign), foreign[0]["what"][:200]))
+    v.add_samples(res.get("samples") or [], 1)
+
+
+@check("C12")
+def c12(tier):
+    v = Verdict("C12", tier)
+    thorough = tier == "thorough"
+    behs = client_behaviours(v, "SenderSpec", 6 if not thorough else 7, 3, "cover")
+    client_replay(v, "C12", behs, "sender(cover)", {"C12", "C02"})
+    behs = client_behaviours(v, "SenderSpec", 4 if not thorough else 5, 2, "paths")
+    client_replay(v, "C12", behs, "sender(paths)", {"C12", "C02"})
+    # schedules of the named deviation: the acknowledgement is processed while the sending call is held
+    # at the yield point between write and register
+    behs = client_behaviours(v, "DevSpec", 4 if not thorough else 5, 2, "paths", dev="TRUE")
+    client_replay(v, "C12", behs, "ack-before-register(gated)", {"C12", "C02"}, ["-dev", "1"])
+    # broker -> subscriber direction: identifiers of requests simultaneously in flight
+    p = core.run_harness(["fwdids", "-reps", "3" if not thorough else "20"], timeout=300)
+    if p.returncode != 0:
+        raise Infra("fwdids failed: %s" % p.stderr[-1500:])
+    res = json.loads(p.stdout.strip().splitlines()[-1])
+    if res.get("counts", {}).get("infra"):
+        raise Infra("fwdids: %s" % res.get("notes")[:2])
+    account(v, res, "forwarded-identifiers")
+    v.cov["rule"] = ("Client specification, sender side: up to 3 requests (PUBLISH QoS 0/1/2, SUBSCRIBE, UNSUBSCRIBE, PINGREQ) outstanding, the scripted peer acknowledges in every "
+                     "order incl. duplicates and identifiers not in flight (transition cover depth 6/7, all paths depth 4/5); PUBREL after PUBREC, completion callbacks in "
+                     "order, exactly once, identifiers of requests in flight non-zero and distinct. Gated schedules of the named deviation (ack processed between write and "
+                     "register). Broker side: two publishers with the same identifier towards a subscriber that withholds its acks. distinct_nontrivial = behaviours replayed")
+    v.cov["exhaustive"] = True
+    v.assumptions += ["library Client over loopback TCP against a scripted peer; the processor's progress is observed through the proc hook",
+                      "two recorded known findings (known_findings.txt): ack-before-register loses the completion; forwarded PUBLISH keeps the publisher's identifier"]
+    return v.finish()
+
+
+@check("C20")
+def c20(tier):
+    v = Verdict("C20", tier)
+    thorough = tier == "thorough"
+    p = core.run_harness(["clientconnect", "-reps", "2" if not thorough else "10"], timeout=600)
+    if p.returncode != 0:
+        raise Infra("clientconnect failed: %s" % p.stderr[-1500:])
+    account(v, json.loads(p.stdout.strip().splitlines()[-1]), "connect-results")
+    behs = client_behaviours(v, "DispSpec", 5 if not thorough else 6, 2, "cover")
+    client_replay(v, "C20", behs, "dispatch(cover)", {"C20", "C12", "C02"})
+    behs = client_behaviours(v, "DispSpec", 3 if not thorough else 4, 2, "paths")
+    client_replay(v, "C20", behs, "dispatch(paths)", {"C20", "C12", "C02"})
+    v.cov["rule"] = ("Client.Connect against CONNACK code 0..5, session present, invalid code, wrong packet, truncated, closed: nil exactly for code 0, else the code, no library "
+                     "goroutine left. Client specification, dispatch: Subscribe requests with overlapping filters (a/#, a/+), f/# against f, rejected filters (0x80), Unsubscribe, "
+                     "inbound PUBLISH QoS 0..2 with DUP repeats, matching and non-matching topics; per step the invocations of every request's callback are compared with the "
+                     "specification (exactly once per delivered message). distinct_nontrivial = behaviours replayed")
+    v.cov["exhaustive"] = True
+    v.assumptions += ["library Client over loopback TCP against a scripted peer", "SUBACKs carry as many return codes as the request has filters (a well-behaved server)"]
+    return v.finish()
+
+
 # ------------------------------------------------------------------------------------------ misc
 
 def setup():
